@@ -192,7 +192,8 @@ func checkC07(w *World, c *Check, tier string) {
 	typerCallsD := callsThroughGlobalIn(w, gobD, "ItemTyperFunc")
 	c.stat("hook_call_sites_JSONItemUnmarshal", len(hookCalls))
 	for _, hc := range hookCalls {
-		if hc.Parent() != jsonD {
+		// … or in the function that holds the dispatch switch, when JSONLoadItem hands the dispatch to a helper
+		if hc.Parent() != jsonD && hc.Parent() != tagFn(jsonTag) {
 			c.bad("C07.hooks", "who-calls:"+funcName(hc.Parent()), w.InstrPos(hc), "JSONItemUnmarshal is invoked outside JSONLoadItem")
 		}
 	}
@@ -209,7 +210,7 @@ func checkC07(w *World, c *Check, tier string) {
 			if os.Getenv("APCHECK_PROFILE") != "" {
 				ip.profile = map[string]int{}
 			}
-			ip.overrides[jsonTag] = mkName(n)
+			forceTag(ip, jsonTag, mkName(n))
 			leaves := observeLeaves(w, ip, jsonD, tagFn(jsonTag))
 			res, _, _ := ip.Call(jsonD, []AV{avNonNilPtr(valT)}, nil, Store{}, nil)
 			judgeLeaf(w, c, "json", n, k, leaves, ip, jsonD)
@@ -224,7 +225,7 @@ func checkC07(w *World, c *Check, tier string) {
 		if hg := w.Global("JSONItemUnmarshal"); hg != nil {
 			ip := newInterp(w)
 			ip.globals[hg] = AV{K: kExtFn, Tag: "JSONItemUnmarshal"}
-			ip.overrides[jsonTag] = mkName(n)
+			forceTag(ip, jsonTag, mkName(n))
 			leaves := observeLeaves(w, ip, jsonD, tagFn(jsonTag))
 			hookHit := false
 			ip.onExtCall = func(site ssa.Instruction, tag string, args []AV) {
@@ -252,7 +253,7 @@ func checkC07(w *World, c *Check, tier string) {
 		// gob encode
 		{
 			ip := newInterp(w)
-			ip.overrides[gobETag] = mkName(n)
+			forceTag(ip, gobETag, mkName(n))
 			leaves := observeLeaves(w, ip, gobE, tagFn(gobETag))
 			ip.Call(gobE, []AV{regAV[n]}, nil, Store{}, nil)
 			judgeLeaf(w, c, "gob-encode", n, k, leaves, ip, gobE)
@@ -260,7 +261,7 @@ func checkC07(w *World, c *Check, tier string) {
 		// gob decode
 		{
 			ip := newInterp(w)
-			ip.overrides[gobDTag] = mkName(n)
+			forceTag(ip, gobDTag, mkName(n))
 			for _, tc := range typerCallsD {
 				ip.overrides[tc] = AV{K: kTuple, Tup: []AV{regAV[n], {K: kIface, Nil: nilYes}}}
 			}
@@ -279,7 +280,7 @@ func checkC07(w *World, c *Check, tier string) {
 			continue
 		}
 		ip := newInterp(w)
-		ip.overrides[jsonTag] = mkName(unk)
+		forceTag(ip, jsonTag, mkName(unk))
 		leaves := observeLeaves(w, ip, jsonD, tagFn(jsonTag))
 		res, _, returned := ip.Call(jsonD, []AV{avNonNilPtr(valT)}, nil, Store{}, nil)
 		key := fmt.Sprintf("unknown-name:%q", unk)
@@ -616,22 +617,7 @@ func checkFamilies(w *World, c *Check, v *vocab, names []string, regType map[str
 	notEmptyFn := w.Func("NotEmpty")
 	kindTests := map[*ssa.Function]bool{}
 	if notEmptyFn != nil {
-		for _, a := range allAnon(notEmptyFn) {
-			for _, call := range callsIn(a) {
-				g := call.Common().StaticCallee()
-				if g == nil || !w.InPkg(g) || g.Signature.Params().Len() != 1 || g.Signature.Results().Len() != 1 {
-					continue
-				}
-				if bt, ok := g.Signature.Results().At(0).Type().Underlying().(*types.Basic); !ok || bt.Kind() != types.Bool {
-					continue
-				}
-				if pt, ok := types.Unalias(g.Signature.Params().At(0).Type()).(*types.Pointer); ok {
-					if sn := namedOf(pt.Elem()); sn != nil && w.StructInfoOf(sn.Obj().Name()) != nil {
-						kindTests[g] = true
-					}
-				}
-			}
-		}
+		kindTests = notEmptyKindTests(w, notEmptyFn)
 	}
 	isObjectFn, isLinkFn := w.Func("IsObject"), w.Func("IsLink")
 	if isObjectFn == nil || isLinkFn == nil {
@@ -784,4 +770,37 @@ func tagFn(tag ssa.Value) *ssa.Function {
 		return p.Parent()
 	}
 	return nil
+}
+
+// forceTag fixes the dispatch tag to a name. When the tag is a parameter of a helper the dispatcher hands the work to
+// (jsonLoadItemOfType(typ, val, i)), the value the dispatcher passes for it is fixed as well: it is the same name that
+// the dispatcher gives to the type registry.
+func forceTag(ip *Interp, tag ssa.Value, name AV) {
+	ip.overrides[tag] = name
+	p, ok := tag.(*ssa.Parameter)
+	if !ok {
+		return
+	}
+	h := p.Parent()
+	idx := -1
+	for i, q := range h.Params {
+		if q == p {
+			idx = i
+		}
+	}
+	if idx < 0 {
+		return
+	}
+	for _, f := range ip.w.Funcs {
+		for _, call := range callsIn(f) {
+			if call.Common().StaticCallee() != h || idx >= len(call.Common().Args) {
+				continue
+			}
+			if a := call.Common().Args[idx]; a != nil {
+				if _, isConst := a.(*ssa.Const); !isConst {
+					ip.overrides[a] = name
+				}
+			}
+		}
+	}
 }
